@@ -72,6 +72,15 @@ func evalLit(l Lit, env map[string]int64, assume map[string]bool) (bool, bool) {
 			return !l.Pol, true
 		}
 	}
+	// string dispatch: if `T == "C"` is assumed, `T == "D"` is false for any other constant D
+	if i := strings.Index(pos, " == \""); i > 0 {
+		lhs := pos[:i]
+		for a := range assume {
+			if strings.HasPrefix(a, lhs+" == \"") && a != pos {
+				return !l.Pol, true
+			}
+		}
+	}
 	v, ok := evalBool(l.Cond, env)
 	if !ok {
 		return false, false
